@@ -110,6 +110,7 @@ func checkDefs() map[string]CheckDef {
 			{Pkg: "internal/verifh/c13", Harness: "VerifC13Buffer", Quick: map[string]int{"L": 6, "symLenK": 9}, Thor: map[string]int{"L": 10, "symLenK": 11}, TV: 15},
 			{Pkg: "internal/verifh/c13", Harness: "VerifC13Window", Quick: map[string]int{"W": 4, "stride": 4, "symLenK": 9}, Thor: map[string]int{"allTemplates": 1}, TV: 15},
 			{Pkg: "internal/verifh/c13", Harness: "VerifC13PB", Quick: map[string]int{"maxSites": 70}, TV: 60},
+			{Pkg: "internal/verifh/c13", Harness: "VerifC13SparseSigs", Quick: map[string]int{"maxSlots": 9}, TV: 15, Note: "sparse signature decoder with the full payload present (0..9 slots, arbitrary mask incl. padding bits)"},
 		},
 		Assumptions: append(append([]string{}, commonAssumptions...), pbAssume,
 			"allocation bound: a decoder may pass at most 65536 to make before it has read the elements (the largest count a 16-bit length field can declare); natively the bound is confirmed through the bytes allocated by the decoder",
@@ -162,6 +163,7 @@ func checkDefs() map[string]CheckDef {
 		ID: "C11",
 		Obligations: []Obligation{
 			{Pkg: "internal/verifh/c11", Harness: "VerifC11History", Quick: map[string]int{"h": 4}, Thor: map[string]int{"h": 5}, TV: 20},
+			{Pkg: "internal/verifh/c10", Harness: "VerifC10Width", TV: 10, Note: "channels of 3, 10 and 11 participants: created, one signature persisted on its own, restored, removed; nothing may stay in the store"},
 		},
 		Assumptions: persistAssume,
 		BoundsText:  "three channels of one client with peer lists {P}, {P,Q}, {Q}, the third a child of the first; all histories of h steps (h=4 quick, 5 thorough) over {create (real API up to Acting), advance (full update, or stopped after the own signature), remove} x channel; after every step: RestoreAll, RestorePeer(P), RestorePeer(Q), ActivePeers, RestoreChannel for all three and the raw key set are compared with the reference set of live channels; restored data is compared leaf by leaf with the live machines",
